@@ -285,7 +285,94 @@ fn evaluator_sweep(ctx: &mut Ctx) {
     }
 }
 
+/// (1) every pair of variable ids i, j < 140: exists / all over [i] of x_i & x_j, x_i | x_j and
+/// x_i ^ x_j (the unlisted variable must survive, whatever the two ids are); (2) a crowded
+/// environment: 300 000 unrelated variable nodes are interned first, then every function of
+/// three variables is quantified over every list of <= 2 variables and compared with the
+/// result in an empty environment.
+fn id_pairs_and_crowded(ctx: &mut Ctx) {
+    use rsbdd::bdd::{BDDEnv, BDD};
+    let case_p = |i: usize, j: usize| json!({"part": "id-pairs", "i": i, "j": j});
+    for i in 0..140usize {
+        if !ctx.mine(i as u64) {
+            continue;
+        }
+        let env = BDDEnv::<usize>::new();
+        for j in 0..140usize {
+            if i == j {
+                continue;
+            }
+            ctx.begin_case(|| case_p(i, j));
+            ctx.count("id_pair_cases", 1);
+            ctx.count("distinct_by_construction", 1);
+            let r = guarded(|| {
+                let (xi, xj) = (env.var(i), env.var(j));
+                let mut bad: Vec<String> = vec![];
+                let t = env.mk_const(true);
+                let f = env.mk_const(false);
+                // (operand, exists-result, forall-result)
+                let cases = [(env.and(xi.clone(), xj.clone()), xj.clone(), f.clone()), (env.or(xi.clone(), xj.clone()), t.clone(), xj.clone()), (env.xor(xi.clone(), xj.clone()), t.clone(), f.clone())];
+                for (k, (op, ex, all)) in cases.iter().enumerate() {
+                    if *env.exists(vec![i], op.clone()) != **ex {
+                        bad.push(format!("exists([{i}], x{i} {} x{j}) is wrong", ["&", "|", "^"][k]));
+                    }
+                    if *env.all(vec![i], op.clone()) != **all {
+                        bad.push(format!("all([{i}], x{i} {} x{j}) is wrong", ["&", "|", "^"][k]));
+                    }
+                }
+                bad
+            });
+            match r {
+                Err(p) => ctx.violation(format!("{TAG} ids {i}, {j}"), format!("panicked: {p}"), case_p(i, j)),
+                Ok(b) if !b.is_empty() => ctx.violation(format!("{TAG} ids {i}, {j}"), b.join("; "), case_p(i, j)),
+                _ => {}
+            }
+        }
+    }
+    // crowded environment (one shard)
+    if ctx.shard == 2 % ctx.nshards {
+        let case = json!({"part": "crowded"});
+        ctx.begin_case(|| case.clone());
+        ctx.count("crowded_environment_runs", 1);
+        let r = guarded(|| -> Option<String> {
+            let crowded = BDDEnv::<usize>::new();
+            let keep: Vec<Rc<BDD<usize>>> = (0..300_000usize).map(|k| crowded.var(1000 + k)).collect();
+            let fresh = BDDEnv::<usize>::new();
+            let build = |e: &BDDEnv<usize>, tt: u64| -> Rc<BDD<usize>> {
+                // Shannon over variables 0, 1, 2 by ite
+                fn go(e: &BDDEnv<usize>, tt: u64, level: usize, fixed: usize) -> Rc<BDD<usize>> {
+                    if level == 3 {
+                        return e.mk_const((tt >> fixed) & 1 == 1);
+                    }
+                    let t = go(e, tt, level + 1, fixed | (1 << level));
+                    let f = go(e, tt, level + 1, fixed);
+                    e.ite(e.var(level), t, f)
+                }
+                go(e, tt, 0, 0)
+            };
+            for tt in 0..256u64 {
+                let (a, b) = (build(&crowded, tt), build(&fresh, tt));
+                for list in [vec![0usize], vec![1], vec![2], vec![0, 1], vec![1, 2], vec![2, 0], vec![0, 2], vec![1, 1], vec![0, 1, 2]] {
+                    if *crowded.exists(list.clone(), a.clone()) != *fresh.exists(list.clone(), b.clone()) {
+                        return Some(format!("exists({list:?}, f={tt:#x}) differs between an environment with {} other nodes and an empty one", keep.len()));
+                    }
+                    if *crowded.all(list.clone(), a.clone()) != *fresh.all(list.clone(), b.clone()) {
+                        return Some(format!("all({list:?}, f={tt:#x}) differs between an environment with {} other nodes and an empty one", keep.len()));
+                    }
+                }
+            }
+            None
+        });
+        match r {
+            Err(p) => ctx.violation(format!("{TAG} crowded environment"), format!("panicked: {p}"), case),
+            Ok(Some(m)) => ctx.violation(format!("{TAG} crowded environment"), m, case),
+            Ok(None) => ctx.count("transitions", 256 * 18),
+        }
+    }
+}
+
 fn run(ctx: &mut Ctx) {
+    id_pairs_and_crowded(ctx);
     evaluator_sweep(ctx);
     long_lists(ctx);
     wide_family(ctx, TAG);
@@ -300,6 +387,19 @@ fn run(ctx: &mut Ctx) {
 fn replay(ctx: &mut Ctx, c: &Value) {
     if c["part"].as_str() == Some("text") {
         replay_text(ctx, TAG, c);
+        return;
+    }
+    if c["part"].as_str() == Some("id-pairs") || c["part"].as_str() == Some("crowded") {
+        let mut c2 = Ctx::new("C04", ctx.tier, ctx.seed, if c["part"].as_str() == Some("crowded") { 2 } else { c["i"].as_u64().unwrap_or(0) % 256 }, 256);
+        if c["part"].as_str() == Some("crowded") {
+            c2 = Ctx::new("C04", ctx.tier, ctx.seed, 0, 1);
+        }
+        id_pairs_and_crowded(&mut c2);
+        for v in c2.violations {
+            if v.replay == *c {
+                ctx.violation(v.key, v.what, v.replay);
+            }
+        }
         return;
     }
     if c["part"].as_str() == Some("wide") {
